@@ -163,6 +163,18 @@ pub fn run(ctx: &mut Ctx) {
             ctx.next_case();
             check_one(ctx, &Tree::Num(Num::f(f)));
         }
+        // arrays of sixteen and more numbers that are all stored nine bytes wide, doubles and
+        // integers beyond 32 bits mixed in every order
+        if !ctx.miri {
+            for k in 0..24usize {
+                ctx.next_case();
+                let n = 14 + k;
+                let mut rng = ctx.rng.fork();
+                let v: Vec<Tree> = (0..n).map(|j| match (j + k) % 3 { 0 => Tree::Num(Num::f(0.25 + j as f64)), 1 => Tree::Num(Num::U(1_700_000_000_000 + rng.next_u64() % 1_000_000)), _ => Tree::Num(Num::I(-(5_000_000_000 + j as i64))) }).collect();
+                check_one(ctx, &Tree::Arr(v.clone()));
+                check_one(ctx, &Tree::Obj(vec![("ts".into(), Tree::Arr(v))]));
+            }
+        }
         // member names and strings around 2^8 and 2^16 bytes, followed by further members
         if !ctx.miri {
             for n in [255usize, 256, 65_535, 65_536, 70_000] {
